@@ -57,11 +57,23 @@ def argmax(
     # ----------------------------------------------------------------------------------
     # Note: If multiple maxima exist, this approach will select the first index.
     # ==================================================================================
+    # The position is computed with a single arg-max reduction over the masked array
+    # and not by comparing a with its maximum: if a is produced inside the same jitted
+    # computation, XLA may evaluate it separately (and with different rounding) for the
+    # maximum and for the comparison, such that no element compares equal.
+    # ==================================================================================
     _max = jnp.max(a, axis=-1, keepdims=True, initial=initial, where=where)
-    max_value_mask = a == _max
-    if where is not None:
-        max_value_mask = jnp.logical_and(max_value_mask, where)
-    argmax = jnp.argmax(max_value_mask, axis=-1)
+    if where is None:
+        argmax = jnp.argmax(a, axis=-1)
+    else:
+        masked = jnp.where(where, a, -jnp.inf)
+        candidate = jnp.argmax(masked, axis=-1, keepdims=True)
+        # If all unmasked elements are -inf, the candidate may be a masked element; in
+        # that case the first unmasked element attains the maximum (0 if all are masked)
+        candidate_is_unmasked = jnp.take_along_axis(where, candidate, axis=-1)
+        first_unmasked = jnp.argmax(where, axis=-1, keepdims=True)
+        argmax = jnp.where(candidate_is_unmasked, candidate, first_unmasked)
+        argmax = argmax.reshape(argmax.shape[:-1])
 
     return argmax, _max.reshape(argmax.shape)
 
